@@ -15,7 +15,7 @@ type c07 struct{ base }
 
 func init() {
 	core.Register(c07{base{id: "C07", race: true, level: "exploration", quickB: 16, thoroughB: 32,
-		rule: "unambiguous histories: every Parse carries a unique query id (visible in the column names a portal Describe returns and in the statement id the exec callback reports) and every Bind unique parameter bytes, so each Execute/Describe identifies the definition it used; the namespace model (harness/checks/ext.go) gives the expected resolution. quick: exhaustive histories of length <= 4 over {Parse n, Bind p<-n, Execute p, Describe-portal p, Close-statement n, Close-portal p} with n,p in {\"\",a} + random length <= 14 over {\"\",a,b}; plus concurrent groups of 2-16 connections using the same names on one server under the race detector with yield injection, each judged against its own sequential model. Non-trivial = a name is defined twice, closed, or used after re-definition; distinct = message-kind/name sequence.",
+		rule: "unambiguous histories: every Parse carries a unique query id (visible in the column names a portal Describe returns and in the statement id the exec callback reports) and every Bind unique parameter bytes, so each Execute/Describe identifies the definition it used; the namespace model (harness/checks/ext.go) gives the expected resolution. quick: exhaustive histories of length <= 4 over {Parse n, Bind p<-n, Execute p, Describe-portal p, Close-statement n, Close-portal p, simple Query} with n,p in {\"\",a} + random length <= 14 over {\"\",a,b}; plus concurrent groups of 2-16 connections using the same names on one server under the race detector with yield injection, each judged against its own sequential model. Non-trivial = a name is defined twice, closed, or used after re-definition; distinct = message-kind/name sequence.",
 		need:        []string{"messages_stepped", "executes_resolved", "redefinitions", "closes", "concurrent_groups", "race_detector_active_batches"},
 		assumptions: append([]string{"each connection is served by one goroutine, so per-connection histories are sequential and are decided by replaying them through a map model (complete, linear time); whether portals survive Sync and whether closing a statement cascades to its portals is left open"}, commonAssumptions...)}})
 }
@@ -29,6 +29,12 @@ func (c07) alphabet(pfx string, names []string) []func(i int) xMsg {
 			return xMsg{K: "parse", Name: n, Query: "P " + id, Prog: xProg(id, 4)}
 		})
 		a = append(a, func(i int) xMsg { return xMsg{K: "closeS", Name: n} })
+		if n == "" {
+			a = append(a, func(i int) xMsg {
+				id := fmt.Sprintf("%s.q%d", pfx, i)
+				return xMsg{K: "query", Query: "Q " + id, Prog: xProg(id, 4)}
+			})
+		}
 		a = append(a, func(i int) xMsg { return xMsg{K: "exec", Portal: n} })
 		a = append(a, func(i int) xMsg { return xMsg{K: "descP", Portal: n} })
 		a = append(a, func(i int) xMsg { return xMsg{K: "closeP", Portal: n} })
@@ -122,8 +128,10 @@ func c07random(rng *core.Rng, pfx string, maxLen int) []xMsg {
 			p := pick(defP)
 			h = append(h, xMsg{K: "closeP", Portal: p})
 			delete(defP, p)
-		default:
+		case k < 97:
 			h = append(h, xMsg{K: "sync"})
+		default: // a simple Query in between must not change what the names resolve to
+			h = append(h, xMsg{K: "query", Query: "Q " + id, Prog: xProg(id, 3+rng.Intn(2))})
 		}
 		if failed {
 			h = append(h, xMsg{K: "sync"})
